@@ -420,9 +420,12 @@ func (c *ComputedStyle) cascadeValue(key pr.PropKey) (value pr.DeclaredValue, sa
 
 	parent_style := c.parentStyle
 	if rawTokens, isPending := value.(pr.RawTokens); isPending { // Property with pending values, validate them.
-		var solvedTokens []Token
+		var (
+			solvedTokens []Token
+			cyclic       bool
+		)
 		for _, token := range rawTokens {
-			tokens := resolveVar(c.variables, token)
+			tokens := resolveVar(c.variables, token, &cyclic)
 			if tokens == nil {
 				solvedTokens = append(solvedTokens, token)
 			} else {
@@ -430,7 +433,10 @@ func (c *ComputedStyle) cascadeValue(key pr.PropKey) (value pr.DeclaredValue, sa
 			}
 		}
 		var err error
-		if len(solvedTokens) == 0 {
+		if cyclic {
+			solvedTokens = nil
+			err = errors.New("cyclic var() reference")
+		} else if len(solvedTokens) == 0 {
 			err = errors.New("no value")
 		} else if shortand != 0 {
 			// the tokens must be expanded (shortand are never variable)
@@ -1510,7 +1516,13 @@ func (styleFor StyleFor) SetPageComputedStylesT(pageType utils.PageElement, html
 }
 
 // Return tokens with resolved CSS variables.
-func resolveVar(computed map[string]pr.RawTokens, token Token) []Token {
+// cyclic is set when a custom property refers to itself, directly or not.
+func resolveVar(computed map[string]pr.RawTokens, token Token, cyclic *bool) []Token {
+	return resolveVarRec(computed, token, map[string]bool{}, cyclic)
+}
+
+// resolving is the set of custom properties being substituted, used to detect cycles.
+func resolveVarRec(computed map[string]pr.RawTokens, token Token, resolving map[string]bool, cyclic *bool) []Token {
 	if !validation.HasVar(token) {
 		return nil
 	}
@@ -1520,13 +1532,13 @@ func resolveVar(computed map[string]pr.RawTokens, token Token) []Token {
 		arguments := []Token{}
 		for _, argument := range fn.Arguments {
 			if fna, isFunction := argument.(pa.FunctionBlock); isFunction && utils.AsciiLower(fna.Name) == "var" {
-				arguments = append(arguments, resolveVar(computed, argument)...)
+				arguments = append(arguments, resolveVarRec(computed, argument, resolving, cyclic)...)
 			} else {
 				arguments = append(arguments, argument)
 			}
 		}
 		token = pa.NewFunctionBlock(token.Pos(), fn.Name, arguments)
-		if resolved := resolveVar(computed, token); len(resolved) != 0 {
+		if resolved := resolveVarRec(computed, token, resolving, cyclic); len(resolved) != 0 {
 			return resolved
 		}
 		return []Token{token}
@@ -1539,11 +1551,18 @@ func resolveVar(computed map[string]pr.RawTokens, token Token) []Token {
 
 	source := default_
 	if l := computed[variableName]; len(l) != 0 {
+		// substituting the definition of the variable: it must not refer to itself
+		if resolving[variableName] {
+			*cyclic = true
+			return []Token{}
+		}
+		resolving[variableName] = true
+		defer delete(resolving, variableName)
 		source = l
 	}
 	computedValue := []Token{}
 	for _, value := range source {
-		if resolved := resolveVar(computed, value); resolved != nil {
+		if resolved := resolveVarRec(computed, value, resolving, cyclic); resolved != nil {
 			computedValue = append(computedValue, resolved...)
 		} else {
 			computedValue = append(computedValue, value)
